@@ -10,6 +10,8 @@ import Chewing.Proofs.TrieFuzzy
 import Chewing.Proofs.TrieOrder
 import Chewing.Proofs.TrieEntries
 import Chewing.Proofs.TrieConforms
+import Chewing.Proofs.TrieEntriesRuns
+import Chewing.Proofs.TrieBuild
 import Chewing.Proofs.TrieFirstN
 import Chewing.Proofs.TrieValidWrite
 /-!
@@ -36,6 +38,10 @@ treats a stored syllable field that is not such a value differently: `Trie::new`
 predicate is false for it.  None of this can happen on a written file: the keys given to `insert` are
 `&[Syllable]`, i.e. valid codes (`ValidEntry`), and the syllable field of a node record is the syllable of the
 builder node (`validate_write`, `writeLoop_syls`); all theorems keep their conclusions.
+
+The ORDER of `entries()` (last section): `entries_correct` / `C11_full` say "each (key, phrase) once"; `entries_order`
+gives the enumeration as a list — keys in `Cli.trieOrder` (sorted by syllable code with a prefix first, maximal prefix
+chains reversed: the depth-first walk pops its results deepest first), each key with its leaf in written order.
 -/
 namespace Chewing.C11
 open Chewing Chewing.Der Chewing.TrieCodec
@@ -594,5 +600,92 @@ example : (sampleTrie.map fun t => (entries t).map fun es => es.map (·.1)) =
 -- the order clause on a leaf mixing both kinds: the single character first, then by descending frequency
 example : sortLeaf [{ text := [1, 2], freq := 5 }, { text := [3], freq := 1 }, { text := [4, 5], freq := 7 }] =
     [{ text := [3], freq := 1 }, { text := [4, 5], freq := 7 }, { text := [1, 2], freq := 5 }] := by decide
+
+/-! ## the ORDER of the enumeration
+
+`entries_correct` determines `entries()` up to a permutation of the keys.  The order itself
+(`Proofs/TrieEntriesOrder.lean`, `Proofs/TrieEntriesRuns.lean`): `Trie::entries()` walks the index depth first with
+an explicit stack — it descends along FIRST children (children of a node lie in the index in ascending order of
+their syllable code, `children_ascending`; the leaf record comes before them) and pushes the leaf of every node it
+passes onto `results`; at a node that has nothing but a leaf the descent ends and `results` is emptied by `pop()`,
+i.e. **deepest key first**; then the walk ascends to the next sibling of the innermost unfinished node.  As a list:
+sort the keys lexicographically by syllable code with a proper prefix before its extensions (`Cli.keyLe`), cut the
+sorted list into its maximal runs in which every key is a prefix of the next one (`Cli.runs` — these are exactly
+the descents), reverse every run (`Cli.trieOrder`).  Under each key the phrases come in the written leaf order
+(`leafOut` = `sortLeaf`, described by `order_documented`). -/
+
+/-- **`entries_order`** — the enumeration of a written file as an EQUATION between lists: for every duplicate-free
+    list `keys` of the inserted keys (in any order), `entries()` yields the keys in the order `Cli.trieOrder keys`
+    and under each key exactly its leaf in written order -/
+theorem entries_order (info : Info) (es : List Entry) (hv : ValidInput info es) (bytes : Bytes)
+    (hw : (TrieCodec.Builder.ofEntries info es).write = some bytes)
+    (keys : List (List Nat)) (hnd : keys.Nodup) (hkeys : ∀ k, k ∈ keys ↔ ∃ ps, inserted es k = some ps) :
+    ∃ t, openTrie bytes = some t ∧
+      entries t = .ok ((Cli.trieOrder keys).flatMap fun k =>
+        (leafOut (k, (inserted es k).getD [])).map fun p => (k, p)) := by
+  have hwf := WF_ofEntries info es hv.2
+  have hi : ValidInfo (TrieCodec.Builder.ofEntries info es).info := by rw [info_ofEntries]; exact hv.1
+  obtain ⟨recs, data, hbuf, _, hopen, hr, hd⟩ := openTrie_write_wf _ hwf hi bytes hw
+  have hlaid := TrieCodec.bfs_layout _ hwf recs data hbuf hr hd
+  have hcount := writeLoop_count _ _ _ _ _ _ _ hbuf
+  have hq : qsize [(TrieCodec.Builder.ofEntries info es).root] = (TrieCodec.Builder.ofEntries info es).root.size := by
+    simp [qsize]
+  rw [hq] at hcount
+  have hfind : ∀ k, findNode k ((TrieCodec.Builder.ofEntries info es).leaf, (TrieCodec.Builder.ofEntries info es).kids) =
+      inserted es k := by
+    intro k
+    have := find_ofEntries info es k
+    unfold TrieCodec.Builder.find at this
+    rw [this]; rfl
+  have := entries_laid_order (info := (TrieCodec.Builder.ofEntries info es).info) hlaid
+    (root_pre _ hwf) (by simpa [TrieCodec.Builder.root] using hcount) keys hnd
+    (fun k => by rw [hkeys k, hfind k])
+  refine ⟨_, hopen, ?_⟩
+  rw [this]
+  simp only [hfind, leafOut]
+
+/-- the inserted keys are the first components of the inserted entries -/
+theorem inserted_some_iff (es : List Entry) (k : List Nat) : (∃ ps, inserted es k = some ps) ↔ k ∈ es.map (·.1) := by
+  unfold inserted refFind
+  have key : ∀ (es : List Entry) (acc : Option (List Phrase)),
+      (∃ ps, es.foldl (fun acc e => if e.1 = k then some (upsert (acc.getD []) e.2) else acc) acc = some ps) ↔
+        (∃ ps, acc = some ps) ∨ k ∈ es.map (·.1) := by
+    intro es
+    induction es with
+    | nil => intro acc; simp
+    | cons e es ih =>
+      intro acc
+      simp only [List.foldl_cons, List.map_cons, List.mem_cons]
+      rw [ih]
+      by_cases h : e.1 = k
+      · simp [h]
+      · have : ¬ k = e.1 := fun c => h c.symm
+        simp [h, this]
+  simpa using key es none
+
+/-- … for instance with the keys in the order of their first insertion -/
+theorem entries_order_first_inserted (info : Info) (es : List Entry) (hv : ValidInput info es) (bytes : Bytes)
+    (hw : (TrieCodec.Builder.ofEntries info es).write = some bytes) :
+    ∃ t, openTrie bytes = some t ∧
+      entries t = .ok ((Cli.trieOrder (Trie.dedupKeys (es.map (·.1)))).flatMap fun k =>
+        (leafOut (k, (inserted es k).getD [])).map fun p => (k, p)) :=
+  entries_order info es hv bytes hw _ (Trie.dedupKeys_nodup _)
+    (fun k => by rw [Trie.mem_dedupKeys, inserted_some_iff])
+
+/-- what the order is, in the terms of the tree (for a well-formed tree): the pre-order key list is sorted by
+    `Cli.keyLe`, and the enumeration is that list cut into prefix chains, each chain reversed -/
+theorem entries_order_is_reversed_descents {it : Item} (hn : NodeInv it) :
+    (pre [] it).Pairwise (fun a b => Cli.keyLe a b = true) ∧
+    ord [] it [] = (Cli.runs (pre [] it)).flatMap List.reverse := by
+  refine ⟨pre_sorted it hn [], ?_⟩
+  have := ord_eq_runs it hn [] [] (chainTo_nil _)
+  simpa using this
+
+-- the order on a small key set: ㄅ < ㄅㄆ < ㄅㄇ < ㄆ sorted; (ㄅ, ㄅㄆ) is a descent and comes out deepest first
+example : Cli.trieOrder [[2], [1, 3], [1], [1, 2]] = [[1, 2], [1], [1, 3], [2]] := by decide
+-- three nested keys and a sibling below the middle one
+example : Cli.trieOrder [[1], [1, 2], [1, 2, 3], [1, 2, 4], [1, 5]] = [[1, 2, 3], [1, 2], [1], [1, 2, 4], [1, 5]] := by decide
+-- the sample file: `entries_order_first_inserted` evaluated
+example : Cli.trieOrder (Trie.dedupKeys (sampleEntries.map (·.1))) = [[10268, 8708], [10268]] := by decide
 
 end Chewing.C11
